@@ -232,7 +232,7 @@ func (file *File) Update(time int, pos int, insLength int, delLength int) {
 
 	// prepare for the keys update
 	var previous *rbtree.Item
-	if insLength > 0 && (origin.Value != uint32(time) || origin.Key == uint32(pos)) {
+	if insLength > 0 && (origin.Value != uint32(time) || origin.Key >= uint32(pos)) {
 		// insert our new interval
 		if iter.Item().Value == uint32(time) && int(iter.Item().Key)-delLength == pos {
 			prev := iter.Prev()
@@ -253,6 +253,7 @@ func (file *File) Update(time int, pos int, insLength int, delLength int) {
 	}
 
 	// update the keys of all subsequent nodes
+	originKey := int(origin.Key)
 	delta := insLength - delLength
 	if delta != 0 {
 		for iter = iter.Next(); !iter.Limit(); iter = iter.Next() {
@@ -261,7 +262,7 @@ func (file *File) Update(time int, pos int, insLength int, delLength int) {
 		}
 		// have to adjust origin in case insLength == 0
 		if origin.Key > uint32(pos) {
-			origin.Key = uint32(int(origin.Key) + delta)
+			originKey += delta
 		}
 	}
 
@@ -272,8 +273,8 @@ func (file *File) Update(time int, pos int, insLength int, delLength int) {
 			// recover the beginning
 			tree.Insert(rbtree.Item{Key: uint32(pos), Value: uint32(time)})
 		}
-	} else if (uint32(pos) > origin.Key && previous != nil && previous.Value != origin.Value) ||
-		(uint32(pos) == origin.Key && origin.Value != prevOrigin.Value) ||
+	} else if (pos > originKey && previous != nil && previous.Value != origin.Value) ||
+		(pos == originKey && origin.Value != prevOrigin.Value) ||
 		pos == 0 {
 		// continue the original interval
 		tree.Insert(rbtree.Item{Key: uint32(pos), Value: origin.Value})
